@@ -186,7 +186,8 @@ pub assume_specification [ <String as Ord>::cmp ] (a: &String, b: &String) -> (r
     ensures r == lex_cmp(utf8(a@), utf8(b@));
 pub assume_specification<T: Clone> [ <[T]>::to_vec ] (s: &[T]) -> (r: Vec<T>)
     ensures r@.len() == s@.len(), forall |i: int| 0 <= i < s@.len() ==> cloned(s@[i], #[trigger] r@[i]);
-pub assume_specification<T> [ <[T]>::reverse ] (s: &mut [T]);
+pub assume_specification<T> [ <[T]>::reverse ] (s: &mut [T])
+    ensures final(s)@.len() == old(s)@.len(), forall |i: int| 0 <= i < old(s)@.len() ==> final(s)@[i] == old(s)@[old(s)@.len() - 1 - i];
 pub assume_specification<T, F: FnMut(&T, &T) -> Ordering> [ <[T]>::sort_by ] (s: &mut [T], f: F);
 pub uninterp spec fn trimmed(s: Seq<char>) -> Seq<char>;
 pub uninterp spec fn count_char(s: Seq<char>, c: char) -> nat;
